@@ -33,6 +33,9 @@ for k in ("A", "B"):
                 _, diff = sh(["git", "-C", wt, "diff", "HEAD"])
                 open(os.path.join(d, "patch.diff"), "w").write(diff)
         meta["patch_applies"] = rca == 0
+        # fresh Numba cache for the patched tree: Numba keys cached kernels by the defining file only, so an edit in
+        # a callee's file would otherwise keep running the clean tree's machine code
+        env = {**env, "NUMBA_CACHE_DIR": wt + "-nb2"}
         rc1, o1 = sh(["/venv/bin/python", os.path.join(d, "demo.py")], cwd=wt, env=env)
         meta["demo_clean_exit"], meta["demo_patched_exit"] = rc0, rc1
         meta["demo_patched_tail"] = o1[-300:]
@@ -45,6 +48,6 @@ for k in ("A", "B"):
                               "pytest whole suite minus network-only test_notebooks.py with the patch" % (rc0, rc1)]
         meta["confirmed"] = bool(meta["patch_applies"] and rc0 == 0 and rc1 != 0 and meta["suite_ok"])
     finally:
-        sh(["git", "-C", "/repo", "worktree", "remove", "--force", wt]); shutil.rmtree(wt + "-nb", ignore_errors=True)
+        sh(["git", "-C", "/repo", "worktree", "remove", "--force", wt]); shutil.rmtree(wt + "-nb", ignore_errors=True); shutil.rmtree(wt + "-nb2", ignore_errors=True)
     json.dump(meta, open(os.path.join(d, "meta.json"), "w"), indent=1)
     print(name, "confirmed" if meta.get("confirmed") else "NOT CONFIRMED", meta.get("suite_with_patch"), meta["demo_clean_exit"], meta["demo_patched_exit"])
